@@ -214,6 +214,125 @@ def _only(kw, ignorable, fname):
         raise AnalysisError('%s with the keyword(s) %s is not modelled' % (fname, ', '.join(extra)))
 
 
+_MISSING = object()
+
+
+class DataclassField(object):
+    """dataclasses.field(...): default / default_factory / init of one field"""
+
+    def __init__(self, default=_MISSING, default_factory=_MISSING, init=True, repr=True, compare=True, hash=None, **kw):
+        if kw:
+            raise AnalysisError('dataclasses.field(%s=..) is not modelled' % sorted(kw)[0])
+        self.default, self.default_factory, self.init, self.compare = default, default_factory, init, compare
+
+    def make(self, interp, cls, name):
+        if self.default_factory is not _MISSING:
+            return self.default_factory()
+        if self.default is not _MISSING:
+            return self.default
+        from .ndarr import InterpRaise
+        raise InterpRaise("%s.__init__() missing 1 required positional argument: '%s'" % (cls.name, name), 'TypeError')
+
+
+def _dataclass_marker(*a, **k):
+    """@dataclass is read by the class model (srcmodel.ClassInfo.dataclass_options); calling it on anything else is a gap"""
+    raise AnalysisError('dataclasses.dataclass applied outside a class definition of the package')
+
+
+class UfuncModel(object):
+    """A numpy ufunc: the elementwise kernel `fn` plus the protocol every ufunc has - out= (also positional), where=,
+    dtype=, and the methods reduce / accumulate / outer.  Keywords that only steer casting are accepted; anything else
+    is refused, never dropped."""
+    REDUCE = {'add': 'np_sum', 'multiply': 'np_prod', 'maximum': 'np_max', 'minimum': 'np_min', 'logical_and': 'np_all',
+              'logical_or': 'np_any'}
+    ACCUMULATE = {'add': 'np_cumsum', 'multiply': 'np_cumprod'}
+
+    def __init__(self, models, name, fn, nin):
+        self.models, self.__name__, self.fn, self.nin = models, name, fn, nin
+
+    def __repr__(self):
+        return "<ufunc '%s'>" % self.__name__
+
+    def __call__(self, *args, **kw):
+        out = kw.pop('out', None)
+        where = kw.pop('where', True)
+        dtype = kw.pop('dtype', None)
+        _only(kw, ('casting', 'order', 'subok'), 'np.' + self.__name__)
+        if len(args) == self.nin + 1:
+            if out is not None:
+                raise InterpTypeError("cannot specify 'out' as both a positional and keyword argument")
+            out, args = args[-1], args[:-1]
+        if len(args) != self.nin:
+            raise InterpTypeError('%s() takes from %d to %d positional arguments but %d were given'
+                                  % (self.__name__, self.nin, self.nin + 1, len(args)))
+        if isinstance(out, tuple):
+            if len(out) != 1:
+                raise AnalysisError('np.%s with several outputs' % self.__name__)
+            out = out[0]
+        res = self.fn(*args)
+        if dtype is not None:
+            res = cast_to_dtype(self.models, self.models.np_asarray(res), dtype)
+        if where is not True:
+            res = self._masked(res, where, out)
+        if out is None:
+            return res
+        if not isinstance(out, Arr):
+            raise InterpTypeError('return arrays must be of ArrayType')
+        out[...] = res
+        return out
+
+    def _masked(self, res, where, out):
+        """where=: elements whose condition is false keep what `out` held (uninitialised memory without an out)"""
+        cond = self.models.np_asarray(where)
+        res = self.models.np_asarray(res)
+        shape = broadcast_shapes(res.shape, cond.shape, *([out.shape] if isinstance(out, Arr) else []))
+        res, cond = broadcast_to(res, shape), broadcast_to(cond, shape)
+        old = broadcast_to(out, shape).items() if isinstance(out, Arr) else [UNINIT] * _prod(shape)
+        items = []
+        for r, c, o in zip(res.items(), cond.items(), old):
+            if c is True or (isinstance(c, int) and not isinstance(c, bool) and c != 0):
+                items.append(r)
+            elif c is False or (isinstance(c, int) and c == 0):
+                items.append(o)
+            elif isinstance(c, Unk):
+                items.append(ndarr.mk_choice(c, r, o))
+            else:
+                raise AnalysisError('where= condition %r' % (c,))
+        return Arr(shape, items)
+
+    def reduce(self, a, axis=0, **kw):
+        _only(kw, ('keepdims', 'dtype', 'initial'), 'np.%s.reduce' % self.__name__)
+        if 'initial' in kw or kw.get('dtype') is not None:
+            raise AnalysisError('np.%s.reduce with initial= / dtype=' % self.__name__)
+        name = self.REDUCE.get(self.__name__)
+        if name is None:
+            raise AnalysisError('no model for np.%s.reduce' % self.__name__)
+        extra = {'keepdims': kw['keepdims']} if kw.get('keepdims') else {}
+        return getattr(self.models, name)(a, axis=axis, **extra)
+
+    def accumulate(self, a, axis=0, **kw):
+        _only(kw, (), 'np.%s.accumulate' % self.__name__)
+        name = self.ACCUMULATE.get(self.__name__)
+        if name is None:
+            raise AnalysisError('no model for np.%s.accumulate' % self.__name__)
+        return getattr(self.models, name)(a, axis=axis)
+
+    def outer(self, a, b, **kw):
+        _only(kw, (), 'np.%s.outer' % self.__name__)
+        if self.nin != 2:
+            raise InterpValueError('outer product only supported for binary functions')
+        a, b = self.models.np_asarray(a), self.models.np_asarray(b)
+        items = []
+        for x in a.items():
+            for y in b.items():
+                r = self.fn(x, y)
+                items.append(r.item() if isinstance(r, Arr) and r.size == 1 else r)
+        return Arr(tuple(a.shape) + tuple(b.shape), items)
+
+    def at(self, *a, **k):
+        raise AnalysisError('no model for np.%s.at' % self.__name__)
+
+
 class ContextDummy(object):
     def __enter__(self):
         return self
@@ -376,8 +495,18 @@ class Models(object):
             import itertools
             ns = Namespace('itertools', **{k: getattr(itertools, k) for k in ('product', 'combinations', 'permutations', 'chain', 'repeat',
                                                                               'combinations_with_replacement', 'islice', 'count',
-                                                                              'accumulate', 'zip_longest')})
+                                                                              'accumulate', 'zip_longest', 'starmap', 'tee', 'takewhile',
+                                                                              'dropwhile', 'groupby', 'pairwise', 'compress', 'cycle',
+                                                                              'filterfalse', 'batched')})
             return ns if name is None else getattr(ns, name)
+        if modname == 'dataclasses':
+            ns = Namespace('dataclasses', dataclass=_dataclass_marker, field=DataclassField, replace=self._dc_replace,
+                           asdict=self._dc_asdict, astuple=lambda o: tuple(self._dc_asdict(o).values()),
+                           fields=lambda o: [Namespace('Field', name=f[0]) for f in (o.cls if hasattr(o, 'attrs') else o.cls).dataclass_fields()],
+                           is_dataclass=lambda o: getattr(getattr(o, 'cls', None), 'dataclass_fields', lambda: None)() is not None)
+            return ns if name is None else getattr(ns, name)
+        if modname == 'operator':
+            return self._operator_ns() if name is None else getattr(self._operator_ns(), name)
         if modname == 'copy':
             ns = Namespace('copy', copy=lambda v: _copy_value(v, False, {}), deepcopy=lambda v, memo=None: _copy_value(v, True, {}))
             return ns if name is None else getattr(ns, name)
@@ -407,6 +536,56 @@ class Models(object):
                 return r
         raise AnalysisError('no model for external %s.%s (imported in %s)' % (modname, name, module.name))
 
+    def _dc_replace(self, obj, **changes):
+        vals = {f[0]: obj.attrs[f[0]] for f in obj.cls.dataclass_fields()}
+        vals.update(changes)
+        return self.interp.instantiate(obj.cls, (), vals)
+
+    def _dc_asdict(self, obj):
+        from .absint import Obj
+
+        def conv(v):
+            if isinstance(v, Obj) and v.cls.dataclass_fields() is not None:
+                return {f[0]: conv(v.attrs[f[0]]) for f in v.cls.dataclass_fields()}
+            if isinstance(v, (list, tuple)):
+                return type(v)(conv(x) for x in v)
+            if isinstance(v, dict):
+                return {k: conv(x) for k, x in v.items()}
+            return _copy_value(v, True, {})
+        return conv(obj)
+
+    def _operator_ns(self):
+        """the operator module: every function is the interpreter's own operation (dunder dispatch included)"""
+        import ast as _ast
+        I = self.interp
+        ops = {'add': _ast.Add, 'sub': _ast.Sub, 'mul': _ast.Mult, 'truediv': _ast.Div, 'floordiv': _ast.FloorDiv, 'mod': _ast.Mod,
+               'pow': _ast.Pow, 'matmul': _ast.MatMult, 'and_': _ast.BitAnd, 'or_': _ast.BitOr, 'xor': _ast.BitXor}
+        cmps = {'lt': _ast.Lt, 'le': _ast.LtE, 'gt': _ast.Gt, 'ge': _ast.GtE, 'eq': _ast.Eq, 'ne': _ast.NotEq, 'is_': _ast.Is,
+                'is_not': _ast.IsNot}
+        ns = Namespace('operator')
+        for k, T in ops.items():
+            setattr(ns, k, (lambda T: lambda a, b: I.binop(T(), a, b))(T))
+        for k, T in cmps.items():
+            setattr(ns, k, (lambda T: lambda a, b: I.compare(T(), a, b))(T))
+        ns.neg = lambda a: I.binop(_ast.Sub(), 0, a)
+        ns.pos = lambda a: a
+        ns.abs = lambda a: I.builtins['abs'](a)
+        ns.not_ = lambda a: not I.truth(a, None, None)
+        ns.contains = lambda a, b: I.compare(_ast.In(), b, a)
+        ns.getitem = lambda a, b: I.getitem(a, b)
+        ns.itemgetter = lambda *idx: ((lambda o: I.getitem(o, idx[0])) if len(idx) == 1 else (lambda o: tuple(I.getitem(o, i) for i in idx)))
+
+        def attrgetter(*names):
+            def get(o, path):
+                for part in path.split('.'):
+                    o = I.getattr(o, part)
+                return o
+            return (lambda o: get(o, names[0])) if len(names) == 1 else (lambda o: tuple(get(o, n) for n in names))
+        ns.attrgetter = attrgetter
+        ns.methodcaller = lambda name, *a, **k: (lambda o: I.getattr(o, name)(*a, **k))
+        ns.index = lambda a: I.builtins['int'](a)
+        return ns
+
     def _simplefilter(self, action='default', *a, **k):
         # the filter applies to the innermost catch_warnings block (or for good when there is none)
         st = self.fp_silenced
@@ -416,6 +595,12 @@ class Models(object):
         self.warnings_log.append(str(msg))
 
     # ------------------------------------------------------------------ numpy namespace
+    UNARY_UFUNCS = ('abs', 'absolute', 'sqrt', 'exp', 'log', 'log2', 'log10', 'log1p', 'expm1', 'exp2',
+                     'sin', 'cos', 'tan', 'sinh', 'cosh', 'tanh', 'arctan', 'arcsin', 'arccos', 'arcsinh',
+                     'arccosh', 'arctanh', 'real', 'imag', 'conj', 'conjugate', 'isnan', 'isinf', 'isfinite',
+                     'iscomplex', 'isreal', 'sign', 'floor', 'ceil', 'negative', 'square', 'round', 'rint',
+                     'logical_not')
+
     def _build_np(self):
         np = Namespace('numpy')
         np.__version__ = '2.5.3'
@@ -522,7 +707,38 @@ class Models(object):
                               LinAlgError=None)
         np.fft = Namespace('fft', fft=self._hooked('np.fft.fft', self.fft))
         np.random = Namespace('random')
+        for name in self.UNARY_UFUNCS:
+            if name in ('round', 'real', 'imag', 'iscomplex', 'isreal'):
+                continue                         # functions, not ufuncs (np.round takes decimals)
+            setattr(np, name, UfuncModel(self, name, self._strip_kw(getattr(np, name)), 1))
+        for name in ('maximum', 'minimum', 'arctan2', 'power', 'add', 'subtract', 'multiply', 'divide', 'true_divide',
+                     'logical_and', 'logical_or', 'hypot'):
+            setattr(np, name, UfuncModel(self, name if name != 'true_divide' else 'divide', getattr(np, name), 2))
+        for name, op in (('greater', '>'), ('greater_equal', '>='), ('less', '<'), ('less_equal', '<='), ('equal', '=='), ('not_equal', '!=')):
+            setattr(np, name, UfuncModel(self, name, (lambda op: lambda a, b: ew2(lambda x, y: ndarr.s_cmp(op, x, y), a, b))(op), 2))
+        for name in ('einsum', 'tensordot', 'take_along_axis', 'matmul', 'vectorize', 'fromiter', 'inner', 'kron', 'trace', 'diagonal',
+                     'apply_along_axis', 'atleast_3d', 'array_split', 'split', 'append', 'insert', 'delete', 'roll', 'nan_to_num',
+                     'argwhere', 'searchsorted', 'select', 'piecewise', 'frompyfunc', 'nansum', 'nanmean', 'average', 'std', 'var',
+                     'floor_divide', 'mod', 'remainder', 'fmax', 'fmin', 'copysign', 'heaviside', 'logaddexp', 'cbrt', 'exp2',
+                     'reciprocal', 'positive', 'fabs', 'deg2rad', 'rad2deg', 'trunc', 'signbit', 'isin', 'interp', 'gradient',
+                     'cross', 'linalg_dummy', 'empty_like_dummy', 'indices', 'mgrid', 'ix_', 'dstack', 'block', 'rot90', 'squeeze_dummy',
+                     'trapezoid', 'logspace', 'geomspace', 'bincount', 'histogram', 'cov', 'corrcoef', 'convolve', 'correlate',
+                     'polyder', 'polyint', 'roots', 'poly1d', 'vander', 'nanstd', 'nanvar', 'nanargmax', 'nancumsum', 'nanprod',
+                     'around', 'fix', 'angle', 'unwrap', 'sinc', 'i0', 'float_power', 'ldexp', 'frexp', 'modf', 'divmod',
+                     'bitwise_and', 'bitwise_or', 'invert', 'left_shift', 'right_shift', 'packbits', 'lexsort', 'partition',
+                     'argpartition', 'sort_complex', 'msort', 'in1d', 'intersect1d', 'union1d', 'setdiff1d', 'setxor1d', 'ediff1d',
+                     'iterable', 'may_share_memory', 'shares_memory', 'can_cast', 'promote_types', 'min_scalar_type', 'common_type',
+                     'ndindex', 'ndenumerate', 'nditer', 'errstate_dummy', 'require', 'asfortranarray', 'asarray_chkfinite'):
+            if name.endswith('_dummy') or name in np.__dict__:
+                continue
+            fn = getattr(self, 'np_' + name, None)
+            setattr(np, name, self._hooked('np.' + name, fn) if fn is not None else self._unmodelled('np.' + name))
         return np
+
+    @staticmethod
+    def _strip_kw(f):
+        return lambda x: f(x)
+
 
     def _unmodelled(self, name):
         def f(*a, **k):
@@ -816,7 +1032,12 @@ class Models(object):
         _only(kw, ('mode',), 'np.take')
         a = self.np_asarray(a)
         if axis is not None:
-            raise AnalysisError('np.take with an axis')
+            idx = indices.items() if isinstance(indices, Arr) else (list(indices) if isinstance(indices, (list, tuple)) else indices)
+            if isinstance(indices, Arr) and indices.ndim != 1:
+                raise AnalysisError('np.take along an axis with an index array of rank %d' % indices.ndim)
+            key = [slice(None)] * a.ndim
+            key[axis % a.ndim] = idx if isinstance(idx, int) else Arr((len(idx),), list(idx), kind='i')
+            return a[tuple(key)]
         flat = a.ravel()
         if isinstance(indices, Arr):
             return Arr(indices.shape, [ndarr.flat_get(flat, i) for i in indices.items()])
@@ -1598,6 +1819,167 @@ class Models(object):
                 acc = (acc + 2 ** 63) % 2 ** 64 - 2 ** 63          # int64 arithmetic wraps silently
             out.append(acc)
         return Arr((len(out),), out, kind='i' if integer else None)
+
+    # ------------------------------------------------------------------ contraction / gathering idioms of vectorised code
+    def np_einsum(self, subscripts, *operands, **kw):
+        """np.einsum with a subscript string (explicit `->` or implicit output), by direct summation over the index space."""
+        _only(kw, ('optimize',), 'np.einsum')
+        if not isinstance(subscripts, str):
+            raise AnalysisError('np.einsum with subscript lists')
+        spec = subscripts.replace(' ', '')
+        if '.' in spec:
+            raise AnalysisError('np.einsum with an ellipsis')
+        ins, _, out = spec.partition('->')
+        terms = ins.split(',')
+        ops = [self.np_asarray(o) for o in operands]
+        if len(terms) != len(ops):
+            raise InterpValueError('more operands provided to einstein sum function than specified in the subscripts string')
+        size = {}
+        for t, o in zip(terms, ops):
+            if len(t) != o.ndim:
+                raise InterpValueError('einstein sum subscripts string contains too many subscripts for operand')
+            for ch, n in zip(t, o.shape):
+                if size.setdefault(ch, n) != n:
+                    if n == 1 or size[ch] == 1:
+                        raise AnalysisError('np.einsum broadcasting a length-1 axis')
+                    raise InterpValueError('operands could not be broadcast together with remapped shapes')
+        if '->' not in spec:
+            letters = ''.join(terms)
+            out = ''.join(sorted(ch for ch in set(letters) if letters.count(ch) == 1))
+        if any(ch not in size for ch in out) or len(set(out)) != len(out):
+            raise InterpValueError('einstein sum subscripts string included output subscript which never appeared in an input')
+        summed = [ch for ch in size if ch not in out]
+        oshape = tuple(size[ch] for ch in out)
+        items = []
+        for oidx in itertools.product(*[range(n) for n in oshape]):
+            env = dict(zip(out, oidx))
+            acc = []
+            for sidx in itertools.product(*[range(size[ch]) for ch in summed]):
+                env.update(zip(summed, sidx))
+                prod = None
+                for t, o in zip(terms, ops):
+                    v = o[tuple(env[ch] for ch in t)] if t else o.item()
+                    prod = v if prod is None else s_mul(prod, v)
+                acc.append(prod)
+            items.append(_sum_items(acc) if acc else 0)
+        res = Arr(oshape, items)
+        return res.item() if not oshape else res
+
+    def np_tensordot(self, a, b, axes=2):
+        a, b = self.np_asarray(a), self.np_asarray(b)
+        if isinstance(axes, int):
+            ax_a, ax_b = list(range(a.ndim - axes, a.ndim)), list(range(axes))
+        else:
+            ax_a, ax_b = axes
+            ax_a = [ax_a] if isinstance(ax_a, int) else list(ax_a)
+            ax_b = [ax_b] if isinstance(ax_b, int) else list(ax_b)
+        ax_a = [x % a.ndim for x in ax_a]
+        ax_b = [x % b.ndim for x in ax_b]
+        if len(ax_a) != len(ax_b) or any(a.shape[i] != b.shape[j] for i, j in zip(ax_a, ax_b)):
+            raise InterpValueError('shape-mismatch for sum')
+        letters = 'abcdefghijklmnopqrstuvwxyz'
+        la = list(letters[:a.ndim])
+        lb = list(letters[a.ndim:a.ndim + b.ndim])
+        for i, j in zip(ax_a, ax_b):
+            lb[j] = la[i]
+        out = [ch for k, ch in enumerate(la) if k not in ax_a] + [ch for k, ch in enumerate(lb) if k not in ax_b]
+        r = self.np_einsum('%s,%s->%s' % (''.join(la), ''.join(lb), ''.join(out)), a, b)
+        return r
+
+    def np_inner(self, a, b):
+        a, b = self.np_asarray(a), self.np_asarray(b)
+        if a.ndim == 0 or b.ndim == 0:
+            return a * b
+        return self.np_tensordot(a, b, axes=([-1], [-1]))
+
+    def np_matmul(self, a, b, **kw):
+        _only(kw, (), 'np.matmul')
+        import ast as _ast
+        return self.interp.binop(_ast.MatMult(), a, b)
+
+    def np_take_along_axis(self, arr, indices, axis):
+        arr, indices = self.np_asarray(arr), self.np_asarray(indices)
+        if axis is None:
+            arr, axis = arr.ravel(), 0
+        if arr.ndim != indices.ndim:
+            raise InterpValueError('`indices` and `arr` must have the same number of dimensions')
+        axis = axis % arr.ndim
+        shape = list(broadcast_shapes(tuple(n if k != axis else 1 for k, n in enumerate(arr.shape)),
+                                      tuple(n if k != axis else 1 for k, n in enumerate(indices.shape))))
+        shape[axis] = indices.shape[axis]
+        ib = broadcast_to(indices, tuple(shape))
+        items = []
+        for idx in itertools.product(*[range(n) for n in shape]):
+            k = ib[idx]
+            if not isinstance(k, int) or isinstance(k, bool):
+                raise AnalysisError('np.take_along_axis with a non concrete index %r' % (k,))
+            src = tuple((k if d == axis else (i if arr.shape[d] != 1 else 0)) for d, i in enumerate(idx))
+            if not -arr.shape[axis] <= k < arr.shape[axis]:
+                raise InterpIndexError('index %d is out of bounds for axis %d with size %d' % (k, axis, arr.shape[axis]))
+            items.append(arr[src])
+        return Arr(tuple(shape), items, kind=arr.kind)
+
+    def np_vectorize(self, pyfunc, **kw):
+        _only(kw, ('otypes',), 'np.vectorize')
+
+        def call(*args):
+            arrs = [self.np_asarray(a) for a in args]
+            shape = broadcast_shapes(*[a.shape for a in arrs])
+            arrs = [broadcast_to(a, shape) for a in arrs]
+            items = [pyfunc(*vals) for vals in zip(*[a.items() for a in arrs])]
+            items = [v.item() if isinstance(v, Arr) and v.size == 1 else v for v in items]
+            return Arr(shape, items)
+        return call
+
+    def np_fromiter(self, it, dtype=None, count=-1, **kw):
+        _only(kw, (), 'np.fromiter')
+        vals = []
+        for v in self.interp.iterate(it):
+            if count >= 0 and len(vals) >= count:
+                break
+            vals.append(v)
+        return cast_to_dtype(self, self.np_asarray(vals) if vals else Arr((0,), []), dtype) if dtype is not None else self.np_asarray(vals)
+
+    def np_repeat(self, a, repeats, axis=None):
+        a = self.np_asarray(a)
+        if axis is not None and a.ndim != 1:
+            raise AnalysisError('np.repeat along an axis of a %d-d array' % a.ndim)
+        flat = a.ravel().items()
+        reps = [repeats] * len(flat) if isinstance(repeats, int) else list(self.np_asarray(repeats).items())
+        if len(reps) != len(flat) or not all(isinstance(r, int) for r in reps):
+            raise AnalysisError('np.repeat with repeats %r' % (repeats,))
+        out = [v for v, r in zip(flat, reps) for _ in range(r)]
+        return Arr((len(out),), out, kind=a.kind)
+
+    def np_tile(self, a, reps):
+        a = self.np_asarray(a)
+        if not isinstance(reps, int) or a.ndim > 1:
+            raise AnalysisError('np.tile of a %d-d array with reps %r' % (a.ndim, reps))
+        flat = a.ravel().items()
+        return Arr((len(flat) * reps,), list(flat) * reps, kind=a.kind)
+
+    def np_trace(self, a, offset=0):
+        a = self.np_asarray(a)
+        if a.ndim != 2:
+            raise AnalysisError('np.trace of a %d-d array' % a.ndim)
+        return _sum_items([a[i, i + offset] for i in range(a.shape[0]) if 0 <= i + offset < a.shape[1]])
+
+    def np_append(self, arr, values, axis=None):
+        arr, values = self.np_asarray(arr), self.np_asarray(values)
+        if axis is None:
+            return self.np_concatenate([arr.ravel(), values.ravel()])
+        return self.np_concatenate([arr, values], axis=axis)
+
+    def np_roll(self, a, shift, axis=None):
+        a = self.np_asarray(a)
+        if axis is not None and a.ndim != 1:
+            raise AnalysisError('np.roll along an axis of a %d-d array' % a.ndim)
+        flat = a.ravel().items()
+        n = len(flat)
+        if not isinstance(shift, int):
+            raise AnalysisError('np.roll by %r' % (shift,))
+        k = shift % n if n else 0
+        return Arr(a.shape, flat[n - k:] + flat[:n - k], kind=a.kind)
 
     def np_trapz(self, *a, **k):
         raise InterpRaise("module 'numpy' has no attribute 'trapz'", 'AttributeError')
